@@ -135,8 +135,14 @@ namespace foonathan
                 auto& pool = pools_.get(node_size);
                 if (pool.empty())
                 {
-                    auto block = reserve_memory(pool, def_capacity());
-                    pool.insert(block.memory, block.size);
+                    // first the current block: a default reservation or, failing that, its remainder
+                    try_reserve_memory(pool, def_capacity());
+                    if (pool.empty())
+                    {
+                        // only if that gave the pool nothing a new block is needed
+                        auto block = reserve_memory(pool, def_capacity());
+                        pool.insert(block.memory, block.size);
+                    }
                 }
 
                 auto mem = pool.allocate();
